@@ -443,6 +443,15 @@ def run_case(case):
         res = lib(call, what=what, sig=sig)
         check(list(idx_arg.keys()) == list(idx.keys()) and all(idx_arg[k_] is idx[k_] for k_ in idx), "index-mapping-modified", {"what": what, "now": core.jsonable(list(idx_arg.keys()))}, sig)
         check_result(res, expected, what, sig, ds_attrs=DS_ATTRS)
+        if op in ("ix", "isel"):
+            # positions with keepdims=True: a scalar position keeps its dimension with one label, in every variable and in the dataset
+            exp_k = []
+            for k in keys:
+                sub = {dd: i for dd, i in idx.items() if dd in ds[k].dims}
+                exp_k.append((k, lib(lambda: fresh[k].take(dict(sub), indexing="position", keepdims=True), what="per-variable " + what + " [keepdims]", sig=sig)))
+            res_k = lib(lambda: ds.take(indices=idx_arg, indexing="position", keepdims=True), what=what + " [take(indexing='position', keepdims=True)]", sig=sig)
+            check_result(res_k, exp_k, what + " [take(indexing='position', keepdims=True)]", sig, ds_attrs=DS_ATTRS)
+            cl.add("take:position-keepdims")
         if len(idx) == 1 and op in ("take", "ix", "isel"):
             # the (indices, axis) call form: axis by name, by position in the dataset, by negative position
             (d1, i1), = idx.items()
